@@ -170,6 +170,8 @@ def verify_cases(rng, res, n):
                                       "mixed_forms_extra_unsigned", "mixed_forms_extra_unsigned", "mixed_forms_gpg_unsigned"])
                 if variant.startswith("mixed_forms") and form != "verification-keys":
                     variant = "plain"
+                if variant == "mixed_forms_extra_unsigned" and not [k for k in W.pool() if k not in ch.owners and k.kind == "rsa"]:
+                    variant = "extra_unsigned_key"          # (both rsa keys of the pool own this layout)
                 out2 = outcome
                 if variant == "no_keys":
                     argv = [a for a in argv if a not in keyfiles and not a.endswith("-keys")]
@@ -468,9 +470,40 @@ def sign_match_cases(rng, res, n):
             shutil.rmtree(d, ignore_errors=True)
 
 
+INCOMPLETE = {"in_toto_run": [[], ["-n", "x"], ["--"], ["-n", "x", "--", "true"]],
+              "in_toto_record": [[], ["start"], ["stop"], ["-n", "x"], ["start", "-n", "x"]],
+              "in_toto_verify": [[], ["-l", "x"], ["--link-dir", "."]],
+              "in_toto_sign": [[], ["-f", "x"], ["--verify"]],
+              "in_toto_mock": [[], ["-n", "x"], ["--", "true"]],
+              "in_toto_match_products": [[], ["--paths", "."]]}
+
+
+def incomplete_cases(res):
+    """Command lines that lack a required part (no arguments at all, no sub-command, no key, no layout, no command):
+    usage errors, status 2 - stated here, not derived from in-toto's own parser (which the other families consult)."""
+    d = tempfile.mkdtemp(prefix="verif-c18u-")
+    cwd = os.getcwd()
+    try:
+        os.chdir(d)
+        for tool, argvs in sorted(INCOMPLETE.items()):
+            for argv in argvs:
+                st, _o, _e = cli.run_main(tool, argv)
+                res.case({"tool": tool, "argv": argv, "status": st}, True, st == 2, sample_cap=1)
+                res.count("incomplete_command_line")
+                if st != 2:
+                    res.fail("oracle", {"op": "incomplete_command_line", "tool": tool, "argv": argv},
+                             {"why": "%s %s lacks a required part: a usage error, exit status 2 - but it ended with %r" % (
+                                 tool.replace("_", "-"), " ".join(argv), st)})
+    finally:
+        os.chdir(cwd)
+        shutil.rmtree(d, ignore_errors=True)
+
+
 def shard(seed, idx, n, tier):
     res = core.Result()
     rng = core.rng_for(seed, "c18", idx)
+    if idx == 0:
+        incomplete_cases(res)
     verify_cases(rng, res, n)
     if idx < 4:
         gpg_verify_case(rng, res)
